@@ -153,9 +153,11 @@ func (c c04) Run(ctx *core.Ctx) error {
 	for i := 0; i < nsz; i++ {
 		cases = append(cases, core.J(c04Case{Sizes: []int{i}}))
 		cases = append(cases, core.J(c04Case{Sizes: []int{0, i, 1}}))
-		cases = append(cases, core.J(c04Case{Sizes: []int{i, i}}))
+		if i < 10 {
+			cases = append(cases, core.J(c04Case{Sizes: []int{i, i}}))
+		}
 	}
-	ctx.Ev.Bounds["varint_boundary_record_lengths"] = []int{126, 127, 128, 129, 16382, 16383, 16384, 16385}
+	ctx.Ev.Bounds["boundary_record_lengths"] = []int{126, 127, 128, 129, 16382, 16383, 16384, 16385, 32768, 32769, 65537, 524288, 524289}
 	// record files written by the earlier format versions (and the current one as a control), read through every path
 	var legacy []string
 	for _, v := range []string{"v1", "v2", "v3", "v4"} {
@@ -295,7 +297,11 @@ func (c c04) Case(w *core.WCtx, payload json.RawMessage) core.Result {
 					next++
 				}
 				if !cs.AllOffsets && size > 600 {
-					near := o%13 == 0
+					step := uint64(13)
+					if size > 100000 {
+						step = 50021 // large files: a sparse sweep plus the windows around every record boundary
+					}
+					near := o%step == 0
 					for _, off := range m.Offs {
 						if o+40 >= off && o <= off+40 {
 							near = true
@@ -346,7 +352,8 @@ func seekSig(path string, o uint64, m rioModel, next int, err error) string {
 // c04SizeRecs: index 0 and 1 are small neighbours, the rest sit around the varint boundaries.
 func c04SizeRecs() []rioRec {
 	out := []rioRec{{"a", []byte("a")}, {"nil", nil}}
-	for _, n := range []int{126, 127, 128, 129, 16382, 16383, 16384, 16385} {
+	// ... and beyond the 32 KiB inflate window, the 64 KiB mark and the 512 KiB pool bucket
+	for _, n := range []int{126, 127, 128, 129, 16382, 16383, 16384, 16385, 32768, 32769, 65537, 524288, 524289} {
 		out = append(out, rioRec{fmt.Sprintf("i%d", n), incompressible(n, uint64(n))})
 	}
 	return out
